@@ -38,7 +38,7 @@ RULE = ("controlled schedules of 2-3 parse() calls at SQL-statement granularity 
 ASSUMPTIONS = ["the database is never corrupt in this workload (that is C01's), so an os.remove of it is a deletion of a live database",
                "a call that fails after a statement waited >= 4.5 s of the 5 s busy timeout is inconclusive (machine load), not a violation",
                "a worker that has not returned from a sqlite call after 30 ms is treated as waiting for a lock; the resulting interleavings are all real executions"]
-REQUIRED_MONITORS = ["calls_checked", "controlled_schedules_run", "stress_rounds_run", "db_integrity_checks"]
+REQUIRED_MONITORS = ["calls_checked", "controlled_schedules_run", "sqlite_calls_scheduled", "stress_rounds_run", "db_integrity_checks", "db_rows_after_run"]
 BUDGET = {"quick": 90, "thorough": 1500}
 VERSION = "1.0.vfc02"
 
@@ -154,6 +154,7 @@ def run_schedule(ctx, rng, idx, state, nworkers, same_text, word, label):
                 t.join(timeout=20)
         ctx.monitor("controlled_schedules_run")
         sig = sched.signature()
+        ctx.monitor("sqlite_calls_scheduled", len(sig))
         per_worker = [sum(1 for w, _, _ in sig if w == i) for i in range(nworkers)]
         nt = sum(1 for c in per_worker if c >= 3) >= 2
         ctx.case({"state": state, "same": same_text, "sig": sig}, nt,
